@@ -15,7 +15,8 @@ RULE = (
     "Hypothesis: label sequences of three families (sequential runs of arbitrary lengths with sorted or unsorted distinct "
     "labels; periodic with jitter like 1,2,3,1,2,3,4,...; irregular), n<=60; arrays of 1-3 dims rechunked along a drawn "
     "axis with arbitrary initial chunkings; chunksize in {None, 1..n}; force_new_chunk_at = non-empty subsets of present "
-    "labels (only-absent labels => must be a clean ValueError); ignore_old_chunks; array, DataArray and Dataset flavours. "
+    "labels (only-absent labels => must be a clean ValueError); ignore_old_chunks; array, DataArray and Dataset flavours; plus sequences of 2-6 "
+    "calls on the SAME dask array with different sequential label arrays (the boundary heuristic is memoised). "
     "Exhaustive small scope: all run-length compositions of n<=6 (thorough 9) x all initial chunk compositions for "
     "rechunk_for_blockwise and for method='blockwise'. Oracle (postconditions): same shape, dtype and computed values; "
     "chunks along the axis all > 0 and summing to n; other axes' chunks untouched; input object (and its chunks) unmodified; "
@@ -45,7 +46,15 @@ def seq_labels(draw, n, sortedlabels):
 
 @st.composite
 def cases(draw, tier="quick"):
-    mode = draw(st.sampled_from(["blockwise", "blockwise", "cohorts", "cohorts", "reduce-blockwise"]))
+    mode = draw(st.sampled_from(["blockwise", "blockwise", "cohorts", "cohorts", "reduce-blockwise", "blockwise-sequence"]))
+    if mode == "blockwise-sequence":
+        # the SAME dask array is rechunked / reduced for several different sequential label arrays in a row:
+        # the memoised boundary heuristic must be keyed on content
+        n = draw(st.integers(4, 40))
+        k = draw(st.integers(2, 6))
+        seqs = [seq_labels(draw, n, True) for _ in range(k)]
+        return {"mode": mode, "n": n, "labelsets": seqs, "chunks": [gen.draw_chunks(draw, n, max_blocks=10)],
+                "reduce": draw(st.booleans())}
     n = draw(st.integers(1, 60 if mode != "reduce-blockwise" else 30))
     if mode in ("blockwise", "reduce-blockwise"):
         labels = seq_labels(draw, n, draw(st.integers(0, 3)) != 0)
@@ -122,6 +131,8 @@ def execute(case) -> Outcome:
 
     out = Outcome()
     mode = case["mode"]
+    if mode == "blockwise-sequence":
+        return exec_sequence(case, out)
     labels = dec(case["labels"])
     shape = tuple(case["shape"])
     axis = case["axis"]
@@ -224,6 +235,47 @@ def execute(case) -> Outcome:
             if not case.get("ignore_old") and not oldb <= newb:
                 out.add(("old-boundary-dropped",), f"rechunk_for_cohorts (ignore_old_chunks=False): old boundaries {sorted(oldb - newb)} lost; old={chunks[axis]} new={nc[axis]} "
                         f"labels={labels.tolist()} force={case['force']} chunksize={case.get('chunksize')}")  # fmt: skip
+                return out
+    return out
+
+
+def exec_sequence(case, out):
+    import dask.array as da
+    from flox import core as fc
+
+    n = case["n"]
+    chunks = (tuple(case["chunks"][0]),)
+    arr = np.arange(n, dtype=np.float64)
+    d = da.from_array(arr, chunks=chunks)
+    oldb = boundaries(chunks[0])
+    out.label("mode=blockwise-sequence", f"k={len(case['labelsets'])}")
+    out.nontrivial = len(case["labelsets"]) >= 2 and any(oldb - {i for i in range(1, n) if ls[i] != ls[i - 1]} for ls in case["labelsets"])
+    for step, ls in enumerate(case["labelsets"]):
+        labels = np.array(ls)
+        starts = {i for i in range(1, n) if labels[i] != labels[i - 1]}
+        r = run(lambda: fc.rechunk_for_blockwise(d, axis=0, labels=labels))
+        if r.kind != "value":
+            et, fr = r.errsig()
+            out.add(("exception", et, fr), f"call #{step} of a sequence on one array: {r.describe()} labels={ls} chunks={chunks}")
+            return out
+        nc = r.value.chunks[0]
+        if sum(nc) != n or any(c <= 0 for c in nc):
+            out.add(("bad-chunks", "sequence"), f"call #{step}: chunks {nc}")
+            return out
+        inside = boundaries(nc) - starts
+        if inside:
+            out.add(("group-straddles-chunk", "in-a-sequence-of-calls"), f"call #{step} of {len(case['labelsets'])} on the same dask array: labels={ls} old chunks="
+                    f"{chunks[0]} -> new chunks {nc}: boundary at {sorted(inside)} splits a group (earlier label sets: {case['labelsets'][:step]})")  # fmt: skip
+            return out
+        if case.get("reduce"):
+            e = run(lambda: fc.groupby_reduce(arr, labels, func="sum"))
+            c = run(lambda: [np.asarray(x.compute(scheduler="sync")) if hasattr(x, "compute") else np.asarray(x) for x in fc.groupby_reduce(d, labels, func="sum", method="blockwise")])
+            if c.kind != "value":
+                et, fr = c.errsig()
+                out.add(("exception", et, fr), f"call #{step}: method='blockwise' on sequential labels: {c.describe()} labels={ls} chunks={chunks}")
+                return out
+            if e.ok and (c.value[0].shape != np.asarray(e.value[0]).shape or not np.array_equal(c.value[0], e.value[0]) or not np.array_equal(c.value[1], e.value[1])):
+                out.add(("blockwise-values", "in-a-sequence-of-calls"), f"call #{step}: method='blockwise' {c.value[0].tolist()} != eager {np.asarray(e.value[0]).tolist()} labels={ls}")
                 return out
     return out
 
